@@ -212,7 +212,14 @@ PAIRS = [("water.xyz", "out.pdb", []), ("water.xyz", "out.sdf", []), ("water_tra
          ("h2o_sto3g.fchk", "out.xyz", []), ("water.xyz", "o.dat", ["-o", "mol2"]), ("water.xyz", "out.fchk", []), ("h2o_sto3g.fchk", "o2.dat", ["--outfmt", "wfx"]), ("water.xyz", "out.nonsense", []),
          ("nonexistent.xyz", "out.pdb", []), ("water_trajectory.xyz", "traj.sdf", ["--many"]), ("h2o_sto3g.wfn", "out.molden", ["-c"]), ("water.xyz", "out2.xyz", ["-i", "xyz"]),
          ("water_trajectory.xyz", "traj2.sdf", ["-m", "-i", "xyz"]), ("water_trajectory.xyz", "traj3.pdb", ["-m", "-i", "xyz"]), ("GARBAGE.xyz", "g.pdb", []), ("GARBAGE_TRAJ.xyz", "g2.pdb", ["-m"]),
-         ("h2o_sto3g.fchk", "pre.mkl", []), ("water.xyz", "pre2.fchk", [])]
+         ("h2o_sto3g.fchk", "pre.mkl", []), ("water.xyz", "pre2.fchk", []), ("GARBAGE_HUGE.mol2", "huge.xyz", ["-m"]), ("GARBAGE_HUGE.mol2", "huge.sdf", ["-m"])]
+# a MOL2 trajectory whose third molecule has a finite coordinate that overflows in the unit conversion: the CLI traps
+# floating-point errors, the API does not; the CLI may fail, but must not report success with fewer frames
+mol = open(os.path.join(data, "caffeine.mol2")).read().splitlines(keepends=True)
+k = next(i for i, l in enumerate(mol) if l.startswith("@<TRIPOS>ATOM")) + 1
+w = mol[k].split()
+bad = list(mol); bad[k] = mol[k].replace(w[2], "1.0e308", 1)
+with open(os.path.join(tmp, "GARBAGE_HUGE.mol2"), "w") as fh: fh.write("".join(mol) + "".join(mol) + "".join(bad) + "".join(mol))
 with open(os.path.join(tmp, "GARBAGE.xyz"), "w") as fh: fh.write("3\ntitle\nO 0 0 0\nH 0 0 x\n")
 lines = open(os.path.join(data, "water_trajectory.xyz")).read().splitlines(keepends=True)
 with open(os.path.join(tmp, "GARBAGE_TRAJ.xyz"), "w") as fh: fh.write("".join(lines[:12]) + "garbage\n" + "".join(lines[13:20]))
@@ -240,7 +247,10 @@ for inp, outp, opts in PAIRS:
     h = lambda f: hashlib.sha256(open(f, "rb").read()).hexdigest() if os.path.exists(f) else "MISSING"
     desc = (inp, outp, opts)
     if api_ok:
-        if r.returncode != 0: fails.append((desc, "CLI failed where the API succeeded", r.stderr[-200:]))
+        # the statement allows the CLI to fail with an error where the API succeeds (it traps floating-point errors);
+        # what it must never do is report success with other content
+        if r.returncode != 0:
+            if not r.stderr.strip(): fails.append((desc, "CLI failed silently"))
         elif h(a) != h(b): fails.append((desc, "CLI output differs from the API output"))
     else:
         if r.returncode == 0: fails.append((desc, "CLI reports success where the API raises " + api_exc))
@@ -260,7 +270,7 @@ def run_bounded(chk):
         chk.fault(f"bounded driver crashed: {out.stderr[-1500:]}")
         return
     res = json.loads(out.stdout.strip().splitlines()[-1])
-    bound = "20 (input file, output name, options) combinations incl. damaged inputs and pre-flight rejections run as `python -m iodata` and through the API; bytes compared, exit status and stderr checked, pre-existing target compared after failures"
+    bound = "22 (input file, output name, options) combinations incl. damaged inputs and pre-flight rejections run as `python -m iodata` and through the API; bytes compared, exit status and stderr checked, pre-existing target compared after failures"
     for kind, example in sorted(res["kinds"].items()):
         script = BOUNDED.replace(_TAIL, f"print(sig.get({kind!r}))\nif {kind!r} in sig:\n    print('REPRODUCED'); sys.exit(1)")
         chk.add_bounded(f"cli-vs-api.{kind}", bound, res["cases"], [example], replay_script=script)
